@@ -13,7 +13,7 @@ Decided structurally:
 """
 import ast
 
-from ..core.astutil import norm, ParentMap
+from ..core.astutil import where_unpack, norm, ParentMap
 from ..core.cfg import CFG
 from ..core.loader import walk_no_nested
 from ..core.pattern import Matcher
@@ -53,19 +53,18 @@ def _makerand(prog, rep):
         f = prog.func(REF, name)
         m = Matcher(prog, f)
         stmts = _stmts(f)
-        ix = [s for s in stmts if isinstance(s, ast.Assign) and isinstance(s.targets[0], ast.Tuple) and len(s.targets[0].elts) == 1 and isinstance(s.value, ast.Call)
-              and norm(s.value.func) == 'np.where']
+        ix = [s for s in stmts if where_unpack(s) is not None and norm(s.value.func).endswith('flatnonzero')]      # flat positions
         ok = False
         why = 'candidate cells are not taken from np.where(<mask>.flat)'
         IX = None
         if ix:
-            IX = norm(ix[0].targets[0].elts[0])
-            arg = ix[0].value.args[0]
+            IX = norm(where_unpack(ix[0])[0])
+            arg = where_unpack(ix[0])[1]
             if und:
-                ok = any(m.match(arg, t) for t in ('np.triu(np.logical_not(np.eye(n))).flat', 'np.triu(np.ones((n, n)), 1).flat', 'np.triu(np.logical_not(np.eye(n)), 1).flat'))
+                ok = any(m.match(arg, t) for t in ('np.triu(np.logical_not(np.eye(n)))', 'np.triu(np.ones((n, n)), 1)', 'np.triu(np.logical_not(np.eye(n)), 1)'))
                 why = 'undirected candidates must be the strict upper triangle (each connection once, diagonal excluded); got %s' % norm(arg)
             else:
-                ok = any(m.match(arg, t) for t in ('np.logical_not(np.eye(n)).flat', '(1 - np.eye(n)).flat', '(np.eye(n) == 0).flat'))
+                ok = any(m.match(arg, t) for t in ('np.logical_not(np.eye(n))', '(1 - np.eye(n))', '(np.eye(n) == 0)'))
                 why = 'directed candidates must be all off-diagonal cells; got %s' % norm(arg)
         rep.ob('E.candidates-exclude-diagonal', f, ix[0] if ix else 'ix, = np.where(mask.flat)', ok, why, line=f.node.lineno)
         rp = [s for s in stmts if isinstance(s, ast.Assign) and isinstance(s.value, ast.Call) and isinstance(s.value.func, ast.Attribute) and s.value.func.attr == 'permutation']
